@@ -3,6 +3,8 @@ import ComposeVerif.Model.C01Stages
 import ComposeVerif.Model.C01Cycles
 import ComposeVerif.Model.C01Reset
 import ComposeVerif.Model.C01Unicity
+import ComposeVerif.Model.C01Pipeline
+import ComposeVerif.Gen.Tables
 import ComposeVerif.Model.Unicity
 /-! line-protocol ops for C01: stage walkers, cycle tracker, extends / include / depends_on loops -/
 open Lean
@@ -244,7 +246,34 @@ def unicityLoopOp : Handler := fun args =>
   | .ok seq => Json.mkObj [("ok", Json.arr (seq.map fun v => match v with | .str s => Json.str s | _ => Json.null).toArray)]
   | .panic site => Json.mkObj [("panic", Json.str site)]
 
-def handlers : List (String × Handler) := [("c01reset", resetOp), ("c01unicityLoop", unicityLoopOp),
+/-! ### the composed stages (`Pipe.loadModel`): documents without extends / include, validation and interpolation off,
+paths not resolved, normalisation off; `SetDefaultValues` on or off; tables as regenerated (`CV.Gen`) -/
+
+def pipeOp : Handler := fun args =>
+  let docs := match getObj args "docs" with
+    | .arr a => a.toList.map goValOfJson
+    | _ => []
+  match docs.mapM id with
+  | .error e => bad e
+  | .ok raws =>
+    let o : CV.C01.Pipe.Opts := { skipInterpolation := true, skipValidation := true, skipDefaultValues := getBool args "skip_defaults",
+                                  skipNormalization := true, resolvePaths := false }
+    let P : CV.C01.Pipe.Params :=
+      { interp := { table := [], fp := { f64 := fun _ => none, f32 := fun _ => none }, env := fun _ => none },
+        omitPats := patsOf args
+        defaults := CV.Gen.defaultValues
+        paths := { wd := "/".toList, home := none }
+        clean := id
+        env := []
+        schemaOK := fun _ => true
+        extInc := fun v => .ok v
+        resolveEnv := id }
+    match CV.C01.Pipe.loadModel o P raws with
+    | .ok v => Json.mkObj [("ok", CV.Val.toJson v)]
+    | .err st => Json.mkObj [("err", st)]
+    | .panic site => Json.mkObj [("panic", site)]
+
+def handlers : List (String × Handler) := [("c01reset", resetOp), ("c01unicityLoop", unicityLoopOp), ("c01pipe", pipeOp),
   ("c01convert", convertOp), ("c01convertTop", convertTopOp), ("c01fixEmpty", fixEmptyOp), ("c01omitEmpty", omitEmptyOp),
   ("c01tracker", trackerOp), ("c01extends", extendsOp), ("c01include", includeOp), ("c01checkCycle", checkCycleOp)]
 
